@@ -7,6 +7,7 @@ verus! {
 //@ include spec/lex.rs
 //@ include prelude/std_ext.rs
 //@ include prelude/cosmwasm.rs
+//@ include prelude/wasm_traits.rs
 //@ include contracts/contracts_lift.rs
 } // verus!
 fn main() {}
